@@ -113,19 +113,22 @@ def _arms(ctx, b):
     for c in cl:
         rv = [core(v) for v, blk in ret_values(c)]
         txt = ' '.join(repr(x) for x in rv)
+        # the range the filter runs over tells the edit kind: insert 0..=len, replace 0..len, delete 0..len, swap 0..len-1
+        rng_kind = None
+        for t in b.calls(r'Iterator::filter_map$|Iterator::filter$'):
+            a = sym(b, t.args[1])
+            if a[0] == 'agg' and a[2] == c.path:
+                src = core(sym(b, t.args[0]))
+                if has(src, Call('RangeInclusive::new', ANY, ANY)):
+                    rng_kind = 'inclusive'
+                elif has(src, ('agg', 'adt', Pred(lambda n: n.endswith('Range::Range')), (ANY, ('bin', 'Sub', ANY, Const(1))))):
+                    rng_kind = 'minus1'
+                else:
+                    rng_kind = 'plain'
         if any(has(x, Call('GetEdits::get_edits', ANY, ANY, ANY)) or has(x, Call('get_edits')) for x in rv):
-            # insert consults idx-1, replace does not
-            cons = [core(sym(c, t.args[1])) for t in c.calls(r'HashSet::contains$')]
-            if any(x[0] == 'bin' and x[1] == 'Sub' for x in cons):
-                roles['insert-filter'] = c
-            else:
-                roles['replace-filter'] = c
+            roles['insert-filter' if rng_kind == 'inclusive' else 'replace-filter'] = c
         elif any(has(x, Call('CanEdit::can_edit', ANY, ANY, ANY)) or has(x, Call('can_edit')) for x in rv):
-            cons = [core(sym(c, t.args[1])) for t in c.calls(r'HashSet::contains$')]
-            if any(x[0] == 'bin' and x[1] == 'Add' for x in cons):
-                roles['swap-filter'] = c
-            else:
-                roles['delete-filter'] = c
+            roles['swap-filter' if rng_kind == 'minus1' else 'delete-filter'] = c
         else:
             gs = [g.atom()[0] for g in edge_guards(c)]
             for g in gs:
